@@ -54,7 +54,8 @@ var kinds = []struct {
 	{vstor.OpCreate, []storage.FileType{storage.TypeManifest, storage.TypeJournal, storage.TypeTable}},
 	{vstor.OpWrite, []storage.FileType{storage.TypeManifest, storage.TypeJournal, storage.TypeTable}},
 	{vstor.OpSync, []storage.FileType{storage.TypeManifest, storage.TypeJournal, storage.TypeTable}},
-	{vstor.OpCloseW, []storage.FileType{storage.TypeManifest, storage.TypeJournal, storage.TypeTable}},
+	// failing close(2) is not in the statement's list of failures (writes, syncs, creates, opens,
+	// reads, removes, renames): not injected.
 	{vstor.OpOpen, []storage.FileType{storage.TypeTable}},
 	{vstor.OpReadAt, []storage.FileType{storage.TypeTable}},
 	{vstor.OpRemove, []storage.FileType{storage.TypeManifest, storage.TypeJournal, storage.TypeTable}},
